@@ -280,7 +280,10 @@ func (j *c05Job) RunUnit(i int, c *run.Ctx) {
 	}
 	nDocs, depth, bound := 4, 3, 1
 	if j.tier == "thorough" {
-		nDocs, depth, bound = 5, 4, 2
+		nDocs, depth, bound = 5, 4, 1
+		if pi < j.nLadder && len(p.Steps) <= 1 {
+			bound = 2 // the shortest paths also with two pool deviations
+		}
 	}
 	if acc {
 		depth-- // accessor mode shares everything but the final wrapping: shorter histories
@@ -375,7 +378,7 @@ func init() {
 		},
 		Bounds: map[string]string{
 			"quick":    "paths: <=2 steps over the 50-step alphabet (+ functions after <=1 step), every atom as $[?()] and $.a[?()], every A&&B / A||B over 24 atoms, 13 function filters (about 4.6k); alphabet: calls on 4 documents (first success, same-shape documents with another outcome, other outcome classes) + X (unrelated Retrieve cycling both pools) + W (scribble on the last result); all histories of length <=3 in plain mode and <=2 in accessor mode; pool answers <=1 deviation",
-			"thorough": "5 documents, histories of length <=4 (accessor mode <=3), pool answers <=2 deviations",
+			"thorough": "5 documents, histories of length <=4 (accessor mode <=3), pool answers <=1 deviation (<=2 for paths of <=1 step)",
 		},
 		New: newC05,
 		Replay: func(cs map[string]interface{}) (bool, string) {
